@@ -76,8 +76,8 @@ func fromVal(v *val.Val, depth int) (*ref.V, error) {
 	if v == nil {
 		return nil, fmt.Errorf("nil value")
 	}
-	if depth > 300 {
-		return nil, fmt.Errorf("value nesting > 300")
+	if depth > 20000 {
+		return nil, fmt.Errorf("value nesting > 20000")
 	}
 	if v.Type == nil {
 		return nil, fmt.Errorf("value with nil type")
